@@ -269,6 +269,23 @@ FAULTS = [
 ]
 
 
+LONG_PREFIXES = [254, 255, 256, 32766, 32767, 32768, 65534, 65535, 65536, 70000, 131075, 1000003]
+
+
+def long_file_cases():
+    """The failing statement and its call site stand after N empty lines, N around every power of two a narrower line table could wrap at;
+    in the main script and in an imported module."""
+    first = "Unhandled TypeError: Binary operands must be two numbers or two strings."
+    out = []
+    for n in LONG_PREFIXES:
+        tail = "fn poke() {\n    var z = nil + 1;\n}\nvar pad = 1;\npoke();\n"
+        out.append(("\n" * n + tail, {}, "TypeError", first,
+                    ['[module "main", line %d] in poke()' % (n + 2), '[module "main", line %d] in script' % (n + 5)]))
+        out.append(('import "longmod";\nvar pad = 1;\nlongmod.poke();\n', {"longmod": "\n" * n + "fn poke() {\n    var z = nil + 1;\n}\n"}, "TypeError", first,
+                    ['[module "longmod", line %d] in poke()' % (n + 2), '[module "main", line 3] in script']))
+    return out
+
+
 def trace_matches(got, want):
     """`want` entries may list alternatives separated by `|`."""
     return len(got) == len(want) and all(g in w.split("|") for g, w in zip(got, want))
@@ -286,6 +303,7 @@ def correspondence(ctx, model_ok=True):
         if "expected_trace" in j:
             cases.append((j["program"], j.get("modules", {}), j["expected_kind"], j.get("expected_first"), j["expected_trace"]))
     n_corpus = len(cases)
+    cases += long_file_cases()
     cases += [gen_trace_program(rng.fork("t%d" % i)) for i in range(n_tr)]
     plist = [("trace%d" % i, c[0], c[1]) for i, c in enumerate(cases)]
     nontrivial = set()
@@ -385,6 +403,8 @@ def correspondence(ctx, model_ok=True):
     for name, f in FAULTS:
         L, line = f(list(VALID_BASE))
         cat.append((name, "\n".join(L) + "\n", line))
+    for n in LONG_PREFIXES:
+        cat.append(("fault-after-%d-empty-lines" % n, "\n" * n + "var = ;\n", n + 1))
     cres, _ = progs.run_programs(ctx.runner, [(n, s, {}) for n, s, _ in cat] + [("valid", "\n".join(VALID_BASE) + "\n", {})], {"gc": "default"}, tag="c")
     if progs.canon_step(cres[-1])[0] != "ok":
         broken.append("the fault-free base program of the compile-error catalogue does not run: %s" % (progs.canon_step(cres[-1]),))
